@@ -367,6 +367,52 @@ def generate(ctx, focus):
         if clause.startswith('harness'):
             raise MachineryError('trace %d: %s at step %d (%s)' % (t, clause, step, [a['act']['op'] for a in traces[t]]))
     ctx.traces += len(traces) - len({t for t, _, _, _ in rej})
+    if not rej:
+        import copy as _copy
+
+        def last_obs(t):
+            return next((e['obs'] for e in reversed(t) if 'obs' in e), None)
+        cands = [t for t in traces if last_obs(t) is not None and len(last_obs(t)['priv']['uids']) >= 1 and not any(e['raised'] for e in t)]
+        two = [t for t in cands if len(last_obs(t)['priv']['uids']) >= 2] or cands
+
+        def mut(fn, pool):
+            def f():
+                for t in pool:
+                    c = _copy.deepcopy(t)
+                    if fn(last_obs(c)) is not False:
+                        return c
+                return None
+            return f
+        if focus == 'C15':
+            cor = [('a removed identity still present on the twin', mut(lambda o: o['pub']['uids'].append('B') if 'B' not in o['pub']['uids'] else False, cands)),
+                   ('a self-signature that does not verify', mut(lambda o: o['imp'].update(verify_all=False), cands)),
+                   ('effective self-signature is an older one', mut(lambda o: o['priv']['eff'].update({o['priv']['uids'][0]: 99}), cands)),
+                   ('revocation reported on the wrong identity', mut(lambda o: o['priv']['revoked'].update({o['priv']['uids'][0]: not o['priv']['revoked'][o['priv']['uids'][0]]}), cands))]
+        elif focus == 'C14':
+            def move(o):
+                u = o['imp']['uids']
+                if len(u) < 2 or not o['imp']['sigs_on'][u[0]]:
+                    return False
+                s_ = o['imp']['sigs_on'][u[0]].pop()
+                o['imp']['sigs_on'][u[1]].append(s_)
+            cor = [('a signature re-attached to the neighbouring identity', mut(move, two)),
+                   ('an identity lost by the import', mut(lambda o: o['imp']['uids'].pop(), cands)),
+                   ('export not a transferable key', mut(lambda o: o['pub'].update(grammar_ok=False), cands)),
+                   ('subkey material differs after import', mut(lambda o: o['imp'].update(fingerprint='0' * 40), cands))]
+        else:
+            cor = [('public twin lacks a signature', mut(lambda o: (o['pub']['sigs_on'][o['pub']['uids'][0]].pop() if o['pub']['sigs_on'][o['pub']['uids'][0]] else False), cands)),
+                   ('public export carries a secret key packet', mut(lambda o: o['pub'].update(tags=[5] + o['pub']['tags'][1:]), cands))]
+        batch = []
+        for name, f in cor:
+            c = f()
+            if c is None:
+                raise MachineryError('self-test %s: corruption %r applies to no trace' % (focus, name))
+            batch.append(c)
+        r = ctx.trace('Trace_Cert', {'traces': batch}, name='cert-selftest', env={'FOCUS': focus})
+        rejected = {p[1] for p in r.prints if isinstance(p, list) and p and p[0] == 'REJECT'}
+        if len(rejected) != len(batch):
+            raise MachineryError('self-test %s: Trace_Cert accepted corrupted traces: rejected %s of %s' % (focus, sorted(rejected), [n for n, _ in cor]))
+        ctx.extra.setdefault('selftest_corruptions_rejected', []).extend(n for n, _ in cor)
     ctx.extra['behaviours_replayed'] = len(traces)
     ctx.extra['steps'] = sum(len(t) for t in traces)
     ctx.extra['observations'] = sum(1 for t in traces for e in t if 'obs' in e) * 4
